@@ -487,6 +487,14 @@ func (h Handle) Join() {
 	Point(KJoin, "join:"+t.name, func() bool { return t.done })
 }
 
+// Where describes where a parked thread waits ("" if it is running or finished).
+func (h Handle) Where() string {
+	if h.t.done || !h.t.parked {
+		return ""
+	}
+	return h.t.kind.String() + ":" + h.t.where
+}
+
 // Done reports whether the thread has finished.
 func (h Handle) Done() bool { return h.t.done }
 
